@@ -157,6 +157,32 @@ def handle (toks : List String) (impl : String) : Verdict :=
         else none
       { model := some m, oracle := o }
     | _, _ => badOp "args"
+  | ["hdir", uh] =>
+    match (parseHexN uh).bind (fun b => (Https.fromBytes b).toOption) with
+    | some u =>
+      let v := u.pathIntoDir
+      let m := s!"ok {hexN v.uri} {reparseH v} {showBool u.pathIsDir} {showBool v.pathIsDir} {hexN u.canonicalAuthority}"
+      let o : Option String :=
+        if field impl 2 ≠ "same" then some "path_into_dir does not re-parse to an equal URI"
+        else if field impl 4 ≠ "true" then some "the path after path_into_dir is not a directory path"
+        else match parseHexN (field impl 1), parseHexN (field impl 5) with
+          | some r, some ca =>
+            if r ≠ u.uri ∧ r ≠ u.uri ++ [slash] then some "path_into_dir changed more than a trailing slash"
+            else if ca.length ≠ u.authority.length ∨ ¬ eqIgnoreCase ca u.authority ∨ ca.any (fun c => 65 ≤ c ∧ c ≤ 90) then
+              some "canonical_authority is not the authority in lower case"
+            else none
+          | _, _ => some "unparseable"
+      { model := some m, oracle := o }
+    | none => badOp "args"
+  | ["racc", uh, xh] =>
+    match (parseHexN uh).bind (fun b => (Rsync.fromBytes b).toOption), parseHexN xh with
+    | some u, some x =>
+      { model := some s!"ok {hexN u.canonicalAuthority} {showBool (endsWith u.path x)}",
+        oracle := match parseHexN (field impl 1) with
+          | some ca => if ca.length ≠ u.authority.length ∨ ¬ eqIgnoreCase ca u.authority ∨ ca.any (fun c => 65 ≤ c ∧ c ≤ 90) then
+              some "canonical_authority is not the authority in lower case" else none
+          | none => some "unparseable" }
+    | _, _ => badOp "args"
   | ["hparent", uh] =>
     match (parseHexN uh).bind (fun b => (Https.fromBytes b).toOption) with
     | some u =>
